@@ -319,6 +319,31 @@ def eq_const(t):
     return None
 
 
+def implied_min_len(t, pol):
+    """For a guard (test, polarity) of the form len(x) <op> k (either operand order): the smallest length of x that satisfies it, as (x expression, m)
+    meaning `len(x) >= m`; None when the guard is not a lower bound on a length."""
+    if not (isinstance(t, ast.Compare) and len(t.ops) == 1):
+        return None
+    l, r, op = t.left, t.comparators[0], type(t.ops[0])
+    flip = {ast.Lt: ast.Gt, ast.LtE: ast.GtE, ast.Gt: ast.Lt, ast.GtE: ast.LtE, ast.Eq: ast.Eq, ast.NotEq: ast.NotEq}
+    if not (isinstance(l, ast.Call) and call_name(l) == "len" and l.args) and isinstance(r, ast.Call) and call_name(r) == "len" and r.args and op in flip:
+        l, r, op = r, l, flip[op]
+    k = const_value(r)
+    if not (isinstance(l, ast.Call) and call_name(l) == "len" and l.args) or not isinstance(k, int) or isinstance(k, bool):
+        return None
+    if not pol:
+        op = {ast.Lt: ast.GtE, ast.LtE: ast.Gt, ast.Gt: ast.LtE, ast.GtE: ast.Lt, ast.Eq: ast.NotEq, ast.NotEq: ast.Eq}.get(op)
+    if op is ast.Gt:
+        return l.args[0], k + 1
+    if op is ast.GtE:
+        return l.args[0], k
+    if op is ast.NotEq and k == 0:
+        return l.args[0], 1
+    if op is ast.Eq and k >= 0:
+        return l.args[0], k
+    return None
+
+
 def guard_eq(fn, node, value, stop=None):
     """Is ``node`` guarded (positively) by an equality test of some expression against ``value``?"""
     for t, pol, k in norm_guards(fn, node, stop):
